@@ -353,6 +353,17 @@ impl ValueTransaction {
     }
 }
 
+#[cfg(nomt_verif)]
+impl ValueTransaction {
+    /// Verification hook: the batch as pushed (`None` = `ValueChange::Delete`).
+    pub fn verif_batch(&self) -> Vec<(beatree::Key, Option<Vec<u8>>)> {
+        self.batch
+            .iter()
+            .map(|(k, c)| (*k, c.as_option().map(|v| v.to_vec())))
+            .collect()
+    }
+}
+
 /// Information about the bucket associated with a page.
 ///
 /// This is either a firmly known bucket index or a pending bucket index which will be determined
